@@ -7,9 +7,11 @@ CLAIMED = {
     "C19": {
         "text": "Proof for all inputs: the terminal encoders/decoders (real bodies of src/terminal.h, extracted each run) satisfy "
                 "round-trip, injectivity, unique transparent zero, non-positive handles and overflow rejection; loop-free code "
-                "over the full symbolic domain (all 2^64 longs, all non-NaN floats), so the result is complete, not sampled.",
+                "over the full symbolic domain (all 2^64 longs, all non-NaN floats), so the result is complete, not sampled. The forest-level "
+                "conversions getEdgeForValue / getValueForEdge (real bodies, no stubs) keep +infinity on EV+ edges, raise TYPE_MISMATCH exactly "
+                "on a wrong range type and round-trip every accepted boolean / integer / EV+ / EV*(double) value.",
         "note": COMMON_NOTE,
-        "design_ref": "DESIGN.md 4 U-term",
+        "design_ref": "DESIGN.md A.2b, 4 U-term",
     },
 }
 CLAIMED.update({
